@@ -123,6 +123,11 @@ def run_query(arr, q):
         if k == "pos":
             r = arr.positions(tok_name(q[1]))
             return ["ok", [[int(x) for x in p] for p in r]]
+        if k == "phrase":
+            r = arr.termfreqs([tok_name(t) for t in q[1]])
+            return ["ok", [_intf(v) for v in r]]
+        if k == "strategy":
+            return ["ok", "na"]
         if k == "lens":
             return ["ok", [_intf(v) for v in arr.doclengths()]]
         if k == "n":
